@@ -6,14 +6,6 @@ From Trie Require Import Nibbles Node Encode Model Spec.
 From C02 Require Import Model.
 From Coq Require Import Arith.
 
-(* what the Go code matches a byte prefix with: the nibble prefix minus one trailing zero nibble *)
-Definition go_prefix (p k : list byte) : bool :=
-  is_prefix (trim_zero_suffix (key_le_to_nibbles p)) (key_le_to_nibbles k).
-
-(* finding prefix-trim: some stored key matches the trimmed nibble prefix but not the byte prefix *)
-Definition guard_trim (m : bmap) (p : list byte) : bool :=
-  existsb (fun e => go_prefix p (fst e) && negb (bytes_prefix p (fst e))) m.
-
 (* finding clear-limit-zero: limit 0 and no key has the prefix (Go reports allDeleted = false) *)
 Definition guard_limit_zero (m : bmap) (p : list byte) (limit : N) : bool :=
   (limit =? 0)%N && forallb (fun e => negb (bytes_prefix p (fst e))) m.
